@@ -53,7 +53,7 @@ fn vector_case(i: usize, v: Value) -> Box<dyn Case> {
             promises: v["promises"].as_array().unwrap().iter().map(|p| p.as_str().map(|s| s.parse().unwrap())).collect(),
             seed: v["seed"].as_str().map(scalar_of),
         };
-        let built = build_cached::<P>(&cfg, &wit).expect("vector statement builds");
+        let built = build_cached::<P>(&cfg, &wit).honest();
         // the commitments the release computed are the commitments this tree computes
         let recorded_c: Vec<Vec<u8>> = v["commitments"].as_array().unwrap().iter().map(|c| unhex(c.as_str().unwrap())).collect();
         let now_c: Vec<Vec<u8>> = built.commitments.iter().map(|c| c.g_compress().to_vec()).collect();
@@ -178,10 +178,10 @@ fn cross_case(cfg: Cfg, seeded: bool) -> Box<dyn Case> {
             wit.seed = Some(seed_scalar(31));
         }
         let ctx = contexts()[5];
-        let built = build_cached::<P>(&cfg, &wit).unwrap();
+        let built = build_cached::<P>(&cfg, &wit).honest();
         let rst = ref_statement_indep(&built.statement);
         // library prover -> reference verifier (+ reference mask recovery)
-        let proof = lib_prove(&built, &ctx, &mut HRng::chacha(12)).unwrap();
+        let proof = lib_prove(&built, &ctx, &mut HRng::chacha(12)).honest();
         let bytes = P::to_bytes(&proof);
         res.executions += 1;
         match refbp::ref_decode_allow_zero_rounds(&bytes) {
